@@ -308,6 +308,8 @@ pub struct Outcome
 	pub finalize: bool,
 	/// (file, line, col, rendered message incl. sources)
 	pub errors: Vec<(String, u32, u32, String)>,
+	/// what `eprintln!("Error: {err}")` of the executable prints for each diagnostic
+	pub printed: Vec<String>,
 	pub image: BTreeMap<u32, u8>,
 	pub segments: Vec<(u32, usize)>,
 }
@@ -325,8 +327,10 @@ pub fn run_real(dir: &std::path::Path) -> Result<Outcome, String>
 		let close_err = match ctx.close_segment() {Ok(..) => None, Err(e) => Some(format!("{e}"))};
 		let fin = if close_err.is_none() {ctx.finalize()} else {false};
 		let mut errors = Vec::new();
+		let mut printed = Vec::new();
 		for e in ctx.get_errors()
 		{
+			printed.push(format!("{e}"));
 			let mut msg = format!("{}", &e.value);
 			let mut src = std::error::Error::source(&e.value);
 			while let Some(s) = src
@@ -344,7 +348,7 @@ pub fn run_real(dir: &std::path::Path) -> Result<Outcome, String>
 			segments.push((range.get_first(), seg.len()));
 			for (i, b) in seg.iter().enumerate() {image.insert(range.get_first().wrapping_add(i as u32), *b);}
 		}
-		Outcome{assemble_ok: res.is_ok(), close_err, finalize: fin, errors, image, segments}
+		Outcome{assemble_ok: res.is_ok(), close_err, finalize: fin, errors, printed, image, segments}
 	})
 }
 
